@@ -18,4 +18,12 @@ WriteAllowed(pre, post, p, v) ==
   /\ ValueAt(post, p) = v
   /\ \A r \in pre : r.p \notin Prefixes(p) => r \in post       \* everything off the chain is untouched
 ReadAllowed(pre, post) == post = pre
+(* assigning a whole child at the end of chain p (its text v lands in the leaf at chain q, p a prefix of q):  *)
+(* the chain down to q exists afterwards, whatever hung below p before is replaced, the rest is untouched    *)
+IsPrefix(a, b) == Len(a) <= Len(b) /\ SubSeq(b, 1, Len(a)) = a
+AssignAllowed(pre, post, p, q, v) ==
+  /\ OneRowPerPath(post)
+  /\ Paths(post) = {x \in Paths(pre) : ~(IsPrefix(p, x) /\ x # p)} \cup Prefixes(q)
+  /\ ValueAt(post, q) = v
+  /\ \A r \in pre : ~IsPrefix(r.p, q) /\ ~IsPrefix(p, r.p) => r \in post
 =============================================================================
